@@ -4,7 +4,7 @@
    call consulting a fault script). *)
 From Coq Require Import List ZArith Bool Arith.
 Import ListNotations.
-From SAV.engine Require Import PoolSeq PoolSeqFrame PoolSeqLeakProofs PoolSeqAccProofs PoolSeqAcc2Proofs.
+From SAV.engine Require Import PoolSeq PoolSeqFrame PoolSeqLeakProofs PoolSeqAccProofs PoolSeqAcc2Proofs PoolSeqKernelProofs.
 Open Scope Z_scope.
 
 (* ---------------------------------------------------------------- no_leak
@@ -87,8 +87,22 @@ Proof.
 Qed.
 Print Assumptions c26_overflow_refuted_baseexception_in_explicit_reset.
 
-(* ---------------------------------------------------------------- refutations of the remaining clauses
-   (the positive theorems ledger / no_dead_reuse are not part of this file yet: see LEVEL_NOTE) *)
+(* ---------------------------------------------------------------- no_dead_reuse
+   PARTIAL: only the decision kernel is proved for all states: whenever get_connection hands back the
+   connection the record already holds (no new DBAPI connection is made), none of the three staleness
+   tests fired, i.e. it is not older than the pool's invalidation stamp, not soft-invalidated after its
+   start, and within the recycle time.  Missing: the invariant that lifts this to whole histories (the
+   record's start stamp is the connection's creation stamp; a closed connection is in no record; every
+   pool-wide invalidation / soft invalidation leaves a stamp strictly greater than the start stamps of
+   the connections it concerns under a strictly increasing clock) - see LEVEL_NOTE.  The refutations
+   below show the two regions where the full statement fails. *)
+Theorem c26_no_dead_reuse_kernel_partial : forall cf r s c s',
+  get_connection cf r s = (Ok c, s') -> nconns s' = nconns s ->
+  r_dbc s r = Some c /\ r_dbc s' r = Some c /\
+  ~ (r_start s' r < inv_time s') /\ ~ (r_start s' r < r_soft s' r) /\
+  (-1 < recycle cf -> clock s' - r_start s' r <= recycle cf).
+Proof. exact get_connection_kernel. Qed.
+Print Assumptions c26_no_dead_reuse_kernel_partial.
 
 (* a connection on which close() was called is handed out again: the checkout listener raises
    InvalidatePoolError, the invalidation's close() raises BaseException, the record keeps the
